@@ -82,7 +82,7 @@ def brentq(f, a, b, *args, **kw):
         # of f strictly between a and b equals it (and that it is one).
         kappa = Fraction(fa) / (Fraction(fa) - Fraction(fb))
         cand = a + kappa * (b - a)
-        rho = z3.Real('brentq_rho!%d' % len(eng.inputs))
+        rho = z3.Real('brentq_rho!%d' % eng.uniq())
         rp = SymReal(rho)
         saved = len(eng.alternatives)
         try:
